@@ -457,6 +457,15 @@ func Scenarios() []Scenario {
 				{Name: "p2", Objects: []*unstructured.Unstructured{Widget("w2", 1), ConfigMap("cm2", "x")}},
 			}))
 		}},
+		{Name: "single-2phase-cel", Setup: func(w *World) {
+			// the same, probed by a CEL rule whose failure message is empty
+			os := NewObjectSet("a1", []PhaseSpec{
+				{Name: "p1", Objects: []*unstructured.Unstructured{ConfigMap("cm1", "x"), Widget("w1", 1)}},
+				{Name: "p2", Objects: []*unstructured.Unstructured{Widget("w2", 1), ConfigMap("cm2", "x")}},
+			})
+			os.Spec.AvailabilityProbes = CELProbes()
+			w.EnvCreate(os)
+		}},
 		{Name: "single-3phase", Setup: func(w *World) {
 			w.EnvCreate(NewObjectSet("a1", []PhaseSpec{
 				{Name: "p1", Objects: []*unstructured.Unstructured{Widget("w1", 1)}},
@@ -485,6 +494,21 @@ func Scenarios() []Scenario {
 			}, "a1"))
 			w.EnvCreate(NewObjectSet("a3", []PhaseSpec{
 				{Name: "p1", Objects: []*unstructured.Unstructured{ConfigMap("shared", "z"), Widget("w2", 2), ConfigMap("only3", "x")}},
+			}, "a1", "a2"))
+		}},
+		{Name: "handover-3rev-annot", Setup: func(w *World) {
+			// the newest revision's template carries a left-over revision annotation (a manifest exported from a cluster)
+			w.EnvCreate(NewObjectSet("a1", []PhaseSpec{
+				{Name: "p1", Objects: []*unstructured.Unstructured{ConfigMap("shared", "x"), ConfigMap("only1", "x")}},
+			}))
+			w.RunPass("os", KOS("a1"))
+			w.EnvCreate(NewObjectSet("a2", []PhaseSpec{
+				{Name: "p1", Objects: []*unstructured.Unstructured{ConfigMap("shared", "y"), Widget("w2", 1)}},
+			}, "a1"))
+			stale := ConfigMap("shared", "z")
+			stale.SetAnnotations(map[string]string{"package-operator.run/revision": "1"})
+			w.EnvCreate(NewObjectSet("a3", []PhaseSpec{
+				{Name: "p1", Objects: []*unstructured.Unstructured{stale, Widget("w2", 2), ConfigMap("only3", "x")}},
 			}, "a1", "a2"))
 		}},
 		{Name: "delegated-mixed", Setup: func(w *World) {
